@@ -136,7 +136,7 @@ fn decode_template(data: &[u8]) -> Option<c11::Case> {
     const OPS: [char; 12] = ['=', '<', '+', '-', '(', ')', ',', '.', ':', '|', ']', '@'];
     const BODY: [char; 8] = ['?', '$', '1', ' ', 'a', '\'', '"', '`'];
     let mut i = 3;
-    let mut next = |i: &mut usize| -> u8 {
+    let next = |i: &mut usize| -> u8 {
         let b = data.get(*i).copied().unwrap_or(0);
         *i += 1;
         b
